@@ -16,7 +16,8 @@ theorem gram_mulVec (J : Matrix ι κ ℝ) (w : ι → ℝ) : (J * Jᵀ) *ᵥ w 
 
 omit [Fintype ι] in
 /-- `(J *ᵥ x) i` is the inner product of row `i` of `J` with `x`. -/
-theorem mulVec_apply_row (J : Matrix ι κ ℝ) (x : κ → ℝ) (i : ι) : (J *ᵥ x) i = J i ⬝ᵥ x := rfl
+theorem mulVec_apply_row (J : Matrix ι κ ℝ) (x : κ → ℝ) (i : ι) : (J *ᵥ x) i = J i ⬝ᵥ x :=
+  rfl
 
 omit [Fintype ι] in
 /-- The regularised normalised Gramian is symmetric. -/
